@@ -548,6 +548,35 @@ fn gen_reeval_stmt(rng: &mut Rng) -> St {
     }
 }
 
+/// number of nodes of `g` matching a literal-only node pattern (all labels, all integer properties)
+fn count_pat_matches(g: &DumpG, p: &NPat) -> usize {
+    g.nodes
+        .iter()
+        .filter(|(_, lt, ps)| {
+            let have: Vec<&str> = lt.split('.').collect();
+            p.labels.iter().all(|l| have.contains(&l.to_string().as_str()))
+                && p.props.iter().all(|(k, e)| match e {
+                    Ex::Lit(PropertyValue::Integer(v)) => ps.split(',').any(|x| x == format!("{}=I{}", k, v)),
+                    _ => false,
+                })
+        })
+        .count()
+}
+
+/// S and the engine agree on a MERGE only while its pattern has at most one match (S binds the
+/// first, openCypher all, the engine an arbitrary one); a MATCH-driven MERGE that takes a
+/// pre-existing slot would also depend on the scan order.  Such statements are not generated.
+fn reeval_ok(pre: &DumpG, st: &St) -> bool {
+    let match_driven = st.cls.iter().any(|c| matches!(c, Cl::MatchN(..)));
+    st.cls.iter().all(|c| match c {
+        Cl::Merge(p, ..) => {
+            let n = count_pat_matches(pre, p);
+            n <= 1 && !(match_driven && n == 1)
+        }
+        _ => true,
+    })
+}
+
 fn run_reeval_scenario(rng: &mut Rng, cases: &mut Vec<Case>) {
     let node = |ls: Vec<u32>, props: Vec<(u32, Ex)>| St { cls: vec![Cl::Create(vec![CPath { a: NPat { var: None, labels: ls, props }, seg: None }])], ret: None };
     let mut setup = vec![];
@@ -570,7 +599,21 @@ fn run_reeval_scenario(rng: &mut Rng, cases: &mut Vec<Case>) {
     let n_stmts = 3 + rng.usize(4);
     for k in 0..setup.len() + n_stmts {
         let pre = dump(&store);
-        let st = if k < setup.len() { setup[k].clone() } else { gen_reeval_stmt(rng) };
+        let st = if k < setup.len() {
+            setup[k].clone()
+        } else {
+            let pg = parse_dump(&pre).unwrap_or_default();
+            let mut pick = None;
+            for _ in 0..12 {
+                let cand = gen_reeval_stmt(rng);
+                if reeval_ok(&pg, &cand) {
+                    pick = Some(cand);
+                    break;
+                }
+            }
+            // nothing unambiguous: take every free slot of one label (a plain MATCH … SET)
+            pick.unwrap_or_else(|| St { cls: vec![Cl::MatchN(1, vec![rng.below(2) as u32], vec![(0, int(0))]), Cl::Set(vec![SetItem::Prop(1, 0, int(1))])], ret: None })
+        };
         let text = st.cypher();
         texts.push(text.clone());
         let o = exec(&mut store, &text, None);
@@ -736,10 +779,12 @@ fn main() {
     let mut spec_lines = vec![];
     let mut rens = vec![];
     for (f, m) in flat.iter().zip(replies.iter()) {
-        let (mok, _mrows, mgraph) = split_reply(m);
+        let (mok, mrows, mgraph) = split_reply(m);
         let ren = if mok && f.out.is_ok() {
             match (parse_dump(&f.post), parse_dump(&mgraph)) {
-                (Some(a), Some(b)) => find_renaming(&a, &b),
+                // the renaming must carry the returned node handles as well; if none does, fall
+                // back to a graph-only renaming so that S reports the rows
+                (Some(a), Some(b)) => find_renaming_rows(&a, &b, f.out.as_ref().ok().map(|r| (r.as_str(), mrows.as_str()))).or_else(|| find_renaming(&a, &b)),
                 _ => None,
             }
         } else {
